@@ -688,9 +688,11 @@ class _FrozenClock:
     their length — and with it the size of the batch that carries them — would otherwise drift by a few bytes between
     the reference run and the capped run of the same scenario."""
 
-    @staticmethod
-    def time() -> float:
-        return 1_800_000_000.0
+    now = 0.0   # set when the run starts: the real time, then held still
+
+    @classmethod
+    def time(cls) -> float:
+        return cls.now
 
 
 def _quiet_and_freeze() -> Any:
@@ -701,6 +703,7 @@ def _quiet_and_freeze() -> Any:
     for n in ("falcon", "vgi_rpc", "vgi_rpc.http", "vgi_rpc.external"):
         logging.getLogger(n).setLevel(logging.CRITICAL)
     real = _state_token.time
+    _FrozenClock.now = float(int(real.time()))
     _state_token.time = _FrozenClock  # type: ignore[assignment]
     return real
 
